@@ -46,7 +46,7 @@ func headHashes(raw []byte) []string {
 // and compared with the model's recovery and with the four clauses of the property.
 func runC05(r *Run) error {
 	defer closeEnv()
-	hists := 10
+	hists := 24
 	cuts := 30
 	if r.Tier == "thorough" {
 		hists, cuts = 160, 80
@@ -133,8 +133,45 @@ func runC05(r *Run) error {
 		if r.Tier == "thorough" {
 			steps = 3 + r.Rng.Intn(25)
 		}
+		// replica A may be restarted in the middle of the history, with or without a limit on
+		// the load.  While it holds only a suffix of its log no merge is scripted (the heads cache
+		// then records the heads of the partial log: an observation outside this property);
+		// local writes are, and everything acknowledged so far must still be recovered later.
+		partial := false
 		for st := 0; st < steps; st++ {
-			switch c := r.Rng.Intn(10); {
+			switch c := r.Rng.Intn(12); {
+			case c >= 10:
+				if err := stA.Close(); err != nil {
+					return fmt.Errorf("close A: %w", err)
+				}
+				st2, err := repA.Orbit.Open(ctx, addr, &orbitdb.CreateDBOptions{EventBus: busA})
+				if err != nil {
+					return fmt.Errorf("reopen A: %w", err)
+				}
+				stA = st2
+				s.Stores[0] = st2
+				amount := []int{-1, -1, 1, 2, 3}[r.Rng.Intn(5)]
+				if err := stA.Load(ctx, amount); err != nil {
+					return fmt.Errorf("load A: %w", err)
+				}
+				if !s.Settle() {
+					r.AddDirect("hang:restart", "store did not settle after the restart", map[string]interface{}{"hist": hi, "state": sim.LastSettleState})
+				}
+				partial = amount > 0
+				r.Count(fmt.Sprintf("restart-A:limited=%v", amount > 0))
+				if partial && r.Rng.Intn(3) > 0 {
+					// a local write on top of the partially loaded log
+					before := u.Note(stA.OpLog().Values().Slice())
+					if err := writeOp(r, s, stA, st+500); err != nil {
+						return err
+					}
+					for _, e := range stA.OpLog().Values().Slice() {
+						if !containsInt(before, canon.Hash.ID(e.GetHash().String())) {
+							env.AddMarker(idxA, "ack", e.GetHash().String())
+						}
+					}
+					r.Count("write-A-on-partial-log")
+				}
 			case c < 5:
 				before := u.Note(stA.OpLog().Values().Slice())
 				if err := writeOp(r, s, stA, st); err != nil {
@@ -156,6 +193,10 @@ func runC05(r *Run) error {
 				}
 				r.Count("write-other")
 			default:
+				if partial {
+					r.Count("sync-skipped(partial log)")
+					continue
+				}
 				before := u.Note(stA.OpLog().Values().Slice())
 				src := 1 + r.Rng.Intn(2)
 				u.Note(s.Stores[src].OpLog().Values().Slice())
